@@ -32,6 +32,7 @@ CHECKS = {
         groups=[
             G("^TestC01_Msg$", 300, 3000),
             G("^TestC01_Dir$", 1000, 10000),
+            G("^TestC01_Concurrent$", 150, 1500),
         ],
         fuzz=[("FuzzDecodeVsRef", 60)],
         rule="one rapid sub-property per message kind (27 kinds iterated, not drawn) with boundary-biased fields (0/1/max integers, NOTAG/NOFID, "
@@ -50,13 +51,17 @@ CHECKS = {
         groups=[
             G("^TestC04_Untrusted$", 20000, 100000),
             G("^TestC04_(Corpus|AllocRatio|CountSweep)$", 1, 1, shard=False),
+            G("^TestC04_Concurrent$", 150, 1500),
         ],
         fuzz=[("FuzzUnmarshal", 90), ("FuzzDecodeDir", 60)],
         rule="valid encoding of a random message of any kind (or of a stat record for DecodeDir) with 1-3 mutations: any length/count field "
              "(located by the reference encoder's field map) overwritten with a hostile constant / true value +-1 / random, truncation at any point, "
              "appended bytes, changed type byte (incl. 106 and out-of-range), single byte flips; 10% unstructured random bytes; plus a deterministic "
              "corpus of every kind x every length field x 8 hostile constants. Oracle: no panic; TotalAlloc delta <= 256 KiB + 96*len(input) (re-measured, "
-             "minimum of 3); on success decode(encode(v)) == v. Non-trivial = input differs from the valid encoding and is longer than 3 bytes.",
+             "minimum of 3); on success decode(encode(v)) == v. TestC04_Concurrent: 1..5 mutated inputs (always one stat record whose size field claims more than the "
+             "input holds) are decoded once alone, then 2..8 goroutines decode them again together with valid messages and records on the shared codec (DecodeDir also "
+             "through a one-byte reader): no panic, every outcome equals the outcome of the same input alone, valid inputs decode to the reference value. "
+             "Non-trivial = input differs from the valid encoding and is longer than 3 bytes.",
         assumptions=["allocation is measured with runtime.MemStats.TotalAlloc around the single decode call, in a process that runs nothing else",
                      "the bound 256 KiB + 96*len is the weakest reading of 'small constant plus linear'; TestC04_AllocRatio re-validates on every run that the densest valid inputs (ratio ~26) stay inside it"],
     ),
